@@ -98,15 +98,16 @@ Definition dec_config : dec xconfig := fun w =>
   match dec_str w with None => None | Some (bem_element, w) =>
   match dec_str w with None => None | Some (bem_modifier, w) =>
   match dec_opt dec_str w with None => None | Some (context_class, w) =>
-    Some (mkX (mkMConfig syntax (user_snips ++ snippet_base sel) vars text max_repeat max_repeat_snip jsx
-                         context_name inline reverse href bem_enabled bem_element bem_modifier context_class)
+  match dec_list dec_Z w with None => None | Some (draws, w) =>       (* the randint oracle of lorem *)
+    Some (mkX (mkMConfigD syntax (user_snips ++ snippet_base sel) vars text max_repeat max_repeat_snip jsx
+                         context_name inline reverse href bem_enabled bem_element bem_modifier context_class draws)
               (mkOconfig (mkOfmt indent base_indent newline) tag_case attr_case attr_quotes format format_leaf
                          format_skip format_force inline_break compact_boolean boolean_attrs self_closing_style
                          inline comment_enabled comment_trigger comment_before comment_after jsx
                          markup_attributes value_prefix), w)
   end end end end end end end end end end end end end end end end
   end end end end end end end end end end end end end end end end
-  end end end end.
+  end end end end end.
 
 Definition enc_event (e : oevent) : wire :=
   match e with
